@@ -159,6 +159,10 @@ fn main() {
                 run = Run::new("C11", &tier, "model_checking");
                 engines::c11::run(&mut run);
             }
+            "C12" => {
+                run = Run::new("C12", &tier, "model_checking");
+                engines::c12::run(&mut run);
+            }
             "C10" => {
                 run = Run::new("C10", &tier, "model_checking");
                 engines::c10::run(&mut run);
@@ -193,6 +197,7 @@ fn replay(dir: &str) -> i32 {
         "c17" => engines::c17::replay(case),
         "c13" => engines::c13::replay(case),
         "faults" => engines::faults::replay(case),
+        "c12" => engines::c12::replay(case),
         "c11" => engines::c11::replay(case),
         "c20" => engines::c20::replay(case),
         "c18" => engines::c18::replay(case),
